@@ -90,6 +90,22 @@ Theorem C13_pyproject_partial : forall src p s sp,
 Proof. exact pyproject_partial. Qed.
 Print Assumptions C13_pyproject_partial.
 
+(* since repo commit 147f414 sys.argv is among the attributes the PEP 517 path substitutes
+   (generated-constant obligation) and is restored under the guards of C13_pyproject_partial;
+   this replaces the former C13_pyproject_argv_refuted *)
+Theorem C13_pyproject_argv_restored :
+  pyproject_argv_patched_b = true /\
+  forall src p s sp,
+  (forall q, In q pyproject_patched -> get (pkey q) s <> Some VNone) ->
+  forallb (fun o => negb (touches k_chdir o)) (fst p) = true ->
+  snd p <> OsExit ->
+  sp = fold_left (py_step (mk_env src 0 false false s))
+         (fst p) (fst (patch_enter pyproject_patched pyproject_base (do_chdir None (get k_chdir s) src s))) ->
+  (forall q, In q pyproject_patched -> get (pkey q) s = None -> get (pkey q) sp <> None) ->
+  exists s', analyse_pyproject src p s = Alive s' /\ get ("sys", "argv") s' = get ("sys", "argv") s.
+Proof. exact (conj pyproject_argv_patched pyproject_argv_restored). Qed.
+Print Assumptions C13_pyproject_argv_restored.
+
 (* file operations that go through the substituted functions never change the project *)
 Theorem C13_project_files_untouched_partial : forall ops tree,
   forallb is_virtual ops = true -> run_fops ops tree = tree.
@@ -111,13 +127,6 @@ Theorem C13_delete_created_attr_refuted :
   /\ ~ C13_full_statement.
 Proof. exact (conj delete_created_attr_refuted full_statement_refuted). Qed.
 Print Assumptions C13_delete_created_attr_refuted.
-
-Theorem C13_pyproject_argv_refuted :
-  exists p s', analyse_pyproject "PROJ" p ex_state = Alive s' /\
-    get ("sys", "argv") s' <> get ("sys", "argv") ex_state /\
-    kmem ("sys", "argv") (map pkey pyproject_patched) = false.
-Proof. exact pyproject_argv_refuted. Qed.
-Print Assumptions C13_pyproject_argv_refuted.
 
 Theorem C13_threads_refuted :
   get k_chdir (interleaved_outer ex_state) <> get k_chdir ex_state /\
